@@ -406,7 +406,10 @@ fn judge_headers(o: &mut Outcome, prefix: &str, got: &HeaderMap, model: &Model) 
 }
 
 /// The reject path: `resp` must be the trailers-only image of `st`.
-fn judge_reject(o: &mut Outcome, prefix: &str, st: &StatusSpec, status: http::StatusCode, headers: &HeaderMap, body: &Collected) {
+fn judge_reject(o: &mut Outcome, prefix: &str, st: &StatusSpec, status: http::StatusCode, headers: &HeaderMap, body: &Collected, ends_with_headers: bool) {
+    if !ends_with_headers {
+        o.violate(format!("{prefix}-not-trailers-only"), "the rejection's body does not report is_end_stream(): the transport would send HEADERS without END_STREAM followed by an empty DATA frame, which is not a trailers-only response");
+    }
     if status != http::StatusCode::OK {
         o.violate(format!("{prefix}-http-status"), format!("HTTP status {status}, expected 200"));
     }
@@ -541,6 +544,7 @@ fn service_body(m: &Menus, c: &Case, ch: &Chooser) -> Outcome {
         }
     };
     let (rparts, rbody) = resp.into_parts();
+    let ends_with_headers = http_body::Body::is_end_stream(&rbody);
     let rbody = collect_body(rbody, 1000);
     let seen = seen.lock().unwrap().clone();
     let icalls = *icalls.lock().unwrap();
@@ -570,7 +574,7 @@ fn service_body(m: &Menus, c: &Case, ch: &Chooser) -> Outcome {
             if seen.calls != 0 {
                 o.violate("reject-inner-called", format!("the interceptor rejected the call but the wrapped service was invoked {} time(s)", seen.calls));
             }
-            judge_reject(&mut o, "reject", &m.statuses[*i], rparts.status, &rparts.headers, &rbody);
+            judge_reject(&mut o, "reject", &m.statuses[*i], rparts.status, &rparts.headers, &rbody, ends_with_headers);
         }
         _ => {
             if seen.calls != 1 {
@@ -733,6 +737,7 @@ fn gen_server_body(m: &Menus, c: &GenCase, ch: &Chooser) -> Outcome {
         }
     };
     let (rparts, rbody) = resp.into_parts();
+    let ends_with_headers = http_body::Body::is_end_stream(&rbody);
     let rbody = collect_body(rbody, 10_000);
     let seen = seen.lock().unwrap().clone();
     let mut o = Outcome::new(format!(
@@ -753,7 +758,7 @@ fn gen_server_body(m: &Menus, c: &GenCase, ch: &Chooser) -> Outcome {
             if seen.calls != 0 {
                 o.violate("gen-server-reject-handler-called", format!("the interceptor rejected the call but the handler ran {} time(s)", seen.calls));
             }
-            judge_reject(&mut o, "gen-server-reject", &m.statuses[*i], rparts.status, &rparts.headers, &rbody);
+            judge_reject(&mut o, "gen-server-reject", &m.statuses[*i], rparts.status, &rparts.headers, &rbody, ends_with_headers);
         }
         _ => {
             // Fresh drops content-type: whether the generated server then still serves the call is
@@ -957,7 +962,7 @@ pub fn property(tier: Tier) -> Property {
     let service = Section::new(
         "intercepted-service",
         cfg(),
-        "cases: method {GET,POST,OPTIONS,X} x version {0.9,1.0,1.1,2,3} x URI {origin-form, absolute-form, query, '*', authority-form, '/'} x header map {empty; repeated key; reserved te/content-type/user-agent/grpc-status; binary incl. padded and empty; mixed with repeated reserved names, obs-text bytes, grpc-message/-timeout; repeated reserved + grpc-encoding; 23 entries over 20 keys; single} x extension {absent,present} x body {empty; 6 bytes; 3 bytes + trailers} x interceptor action {identity; insert ASCII new/existing/reserved key; insert binary new/existing; append ASCII existing/new/reserved; append binary existing/new(empty); remove existing/absent/reserved/binary; return a fresh request; add extension; remove extension; reject(status)} with status in {every code 0..=16 with rotating message/details/metadata} + {message menu incl. empty,'%',non-ASCII,control chars} x {details of length 0..4} x {metadata: none, ASCII, binary, repeated, reserved names} [Q: every request x every accepting action, a rotating twelfth of the requests x every rejecting status; T: full product]. Path: InterceptedService::new(recorder, closure) called once, no runtime. Oracle accept: recorder invoked once with the original method/URI/version/body bytes/body trailers, headers equal (multimap, per-key order) to the original with exactly the interceptor's edit applied by a reference model (interceptor-written binary values judged by independent base64 decode), original extension kept unless removed, interceptor's extension present iff added. Oracle reject: recorder never invoked; response 200, content-type exactly application/grpc, empty body without trailers; grpc-status/grpc-message/grpc-status-details-bin decoded independently equal code/message/details; status metadata per key; header block equal to content-type + Status::add_header. Non-trivial = action is not identity, or the header map has reserved, repeated or binary entries.",
+        "cases: method {GET,POST,OPTIONS,X} x version {0.9,1.0,1.1,2,3} x URI {origin-form, absolute-form, query, '*', authority-form, '/'} x header map {empty; repeated key; reserved te/content-type/user-agent/grpc-status; binary incl. padded and empty; mixed with repeated reserved names, obs-text bytes, grpc-message/-timeout; repeated reserved + grpc-encoding; 23 entries over 20 keys; single} x extension {absent,present} x body {empty; 6 bytes; 3 bytes + trailers} x interceptor action {identity; insert ASCII new/existing/reserved key; insert binary new/existing; append ASCII existing/new/reserved; append binary existing/new(empty); remove existing/absent/reserved/binary; return a fresh request; add extension; remove extension; reject(status)} with status in {every code 0..=16 with rotating message/details/metadata} + {message menu incl. empty,'%',non-ASCII,control chars} x {details of length 0..4} x {metadata: none, ASCII, binary, repeated, reserved names} [Q: every request x every accepting action, a rotating twelfth of the requests x every rejecting status; T: full product]. Path: InterceptedService::new(recorder, closure) called once, no runtime. Oracle accept: recorder invoked once with the original method/URI/version/body bytes/body trailers, headers equal (multimap, per-key order) to the original with exactly the interceptor's edit applied by a reference model (interceptor-written binary values judged by independent base64 decode), original extension kept unless removed, interceptor's extension present iff added. Oracle reject: recorder never invoked; response 200, content-type exactly application/grpc, empty body without trailers whose is_end_stream() is true from the start (so that the transport ends the stream with the HEADERS frame); grpc-status/grpc-message/grpc-status-details-bin decoded independently equal code/message/details; status metadata per key; header block equal to content-type + Status::add_header. Non-trivial = action is not identity, or the header map has reserved, repeated or binary entries.",
         service_cases(tier, &menus),
         move |c: &Case| describe_case(&m1, c),
         move |c: &Case, ch: &Chooser| service_body(&m2, c, ch),
